@@ -454,6 +454,34 @@ def crash_points(ctx, exe, st, scripts, calls_out):
             recover(ctx, exe, name, label, st)
 
 
+def threads_jobs(ctx, st):
+    """'in any thread': threads of one process work on different names at the same time (value oracles + ThreadSanitizer)."""
+    import glob
+    q = ctx.quick
+    jobs = []
+    for j, (variant, nt, it) in enumerate([("tsan", 4, 600), ("tsan", 8, 300), ("asan", 4, 1500), ("plain", 8, 3000)] if q else
+                                          [("tsan", 4, 20000), ("tsan", 8, 10000), ("tsan", 16, 5000), ("asan", 4, 50000), ("asan", 16, 20000), ("plain", 8, 200000), ("plain", 32, 50000)]):
+        exe = build.driver(variant, "c07_threads", ["c07_threads.c"])
+        job = dict(cmd=[exe, "--threads", str(nt), "--iters", str(it), "--seed", str(ctx.seed * 10 + j)], variant=variant, tag="threads %s x%d" % (variant, nt), san_ctx="shm-threads",
+                   hang_is_violation=True, hang_key="threads symptom=hang")
+        if variant == "tsan":
+            job["tsan_log"] = "/tmp/vfC07-tsan-%d-%d-%d" % (os.getpid(), ctx.seed, j)
+        jobs.append(job)
+    for job, r in core.run_jobs(ctx, jobs, timeout=300 if q else 3000, workers=4):
+        for o in r.json_lines():
+            if o.get("ev") == "stats":
+                st["thread_segments"] += o["segments"]
+                st["thread_bytes_checked"] += o["bytes_checked"]
+                st["thread_runs"] += 1
+        if job.get("tsan_log"):
+            for rep in core.tsan_reports(job["tsan_log"]):
+                if rep["lib_frames"]:
+                    ctx.violation("threads tsan %s frames=%s" % (rep["kind"], "<".join(rep["lib_frames"][:3])),
+                                  "ThreadSanitizer report with plibsys frames while threads of one process open different names", {"report": rep["text"]})
+            for fn in glob.glob(job["tsan_log"] + ".*"):
+                os.unlink(fn)
+
+
 def run(ctx):
     q = ctx.quick
     exe = build.driver("asan", "ipc_agent", ["ipc_agent.c", "wrap_sys.c"], wraps=build.WRAPS_ALL)
@@ -476,12 +504,13 @@ def run(ctx):
         first_open(ctx, plain, np_, rounds, 200, st)
     for (np_, it, own, tag) in ([(3, 1500, 40, "a"), (4, 1500, 15, "b")] if q else [(2, 20000, 50, "a"), (4, 20000, 30, "b"), (8, 10000, 15, "c"), (16, 5000, 10, "d")]):
         shm_churn(ctx, plain, np_, it, own, st, tag)
+    threads_jobs(ctx, st)
     calls = {}
     crash_points(ctx, exe, st, list(SCRIPTS), calls)
     cov = ctx.coverage
-    cov["evaluations"] = st["ops"] + st["cross_reads"] + st["crash_points"] + st["first_open_rounds"] + st["lock_iterations"]
+    cov["evaluations"] = st["ops"] + st["cross_reads"] + st["crash_points"] + st["first_open_rounds"] + st["lock_iterations"] + st["thread_segments"]
     cov["distinct_nontrivial"] = st["histories"] + st["crash_points"] + st["first_open_rounds"]
-    cov["rule"] = ("evaluations = history operations + cross-handle digest comparisons (after every new/write every live handle in every process re-reads the model image) + crash points with recovery + concurrent-first-open rounds + locked increments. "
+    cov["rule"] = ("evaluations = history operations + cross-handle digest comparisons (after every new/write every live handle in every process re-reads the model image) + crash points with recovery + concurrent-first-open rounds + locked increments + segments created/checked/freed by concurrent threads of one process on distinct names (also under ThreadSanitizer). "
                    "distinct_nontrivial = histories (distinct PRNG draws: 1-2 names, 2-3 processes, sizes incl. page-boundary values, size arguments equal/larger/smaller/zero, read-only handles) + crash points (script, libc call, before/after) + first-open rounds.")
     cov["stats"] = dict(st)
     cov["crash_script_calls"] = calls
